@@ -110,10 +110,27 @@ def gen_plan(prop, tier, rng, i):
                 if rng.random() < 0.3:
                     emit({"k": "modified", "p": p})
                 live.append(p)
-        elif r < 0.7:
+        elif r < 0.66:
             p = rng.choice(live)
             steps.append({"s": "fs_grow", "p": p, "size": rng.randrange(1, smax + 1)})
             emit({"k": "modified", "p": p})
+        elif r < 0.7:
+            # a tracked file renamed inside the watched tree (both names match the grammar)
+            p = rng.choice(live)
+            m_ = RE_DATA.match("x/" + p)
+            g2 = rng.choice(groups) if rng.random() < 0.3 else None
+            kind = "md" if "/metadata/" in p else "rf"
+            cands = [g_ for g_ in groups if g_[1] == kind]
+            g2 = rng.choice(cands)
+            key = clock[g2] + rng.choice([1000, 2000, -3000, 50000])
+            if kind == "md":
+                key = key // 1000 * 1000
+            q = _path(g2[0], g2[1], max(key, SUB0 * 1000))
+            if q not in live and q != p:
+                live.remove(p)
+                live.append(q)
+                steps.append({"s": "fs_move", "p": p, "q": q})
+                emit({"k": "moved", "p": p, "q": q})
         elif r < 0.78:
             p = rng.choice(live)
             live.remove(p)
@@ -306,6 +323,7 @@ def _run_threaded(plan, res, sc):
         elif s == "fs_move":
             p, q = os.path.join(root, st["p"]), os.path.join(root, st["q"])
             if os.path.exists(p):
+                os.makedirs(os.path.dirname(q), exist_ok=True)
                 os.rename(p, q)
         elif s == "fs_del" and si < cut:
             p = os.path.join(root, st["p"])
@@ -579,6 +597,7 @@ def run_plan(prop, plan):
                 if s == "fs_move":
                     p, q = os.path.join(root, st["p"]), os.path.join(root, st["q"])
                     if os.path.exists(p):
+                        os.makedirs(os.path.dirname(q), exist_ok=True)
                         os.rename(p, q)
                     continue
                 if s == "ev":
